@@ -116,7 +116,7 @@ theorem not_hasPanic_of_ok : ∀ (r : PR ι), status r = .ok → hasPanic r = fa
   | .dead, h => by simp [status] at h
   | .leaf _, _ => rfl
   | .closing _, _ => rfl
-  | .scope _ _, _ => rfl
+  | .scope _ _, h => by simp [status] at h
   | .scopeOpen _ _, h => by simp [status] at h
   | .seq a b, h => by
     simp only [status] at h
@@ -379,6 +379,317 @@ theorem steps_scope {s : ι} {body : PR ι} {l : List (PEv ι)} {r' : PR ι} (h 
       simp only [↓reduceIte] at h
       exact Or.inr ⟨l, rfl, h⟩
     · simp [h1] at h
+
+/-! ### events belong to instances of the residual -/
+
+theorem shuffle_mem {α} {a b l : List α} (h : Shuffle a b l) (e : α) : e ∈ l ↔ e ∈ a ∨ e ∈ b := by
+  induction h with
+  | nil => simp
+  | left _ ih => simp [ih, or_assoc]
+  | right _ ih => simp [ih]; constructor <;> (rintro (h | h | h) <;> simp [h])
+
+theorem steps_ev_sys : ∀ (r : PR ι) {l : List (PEv ι)} {r' : PR ι}, steps r l = some r' →
+    ∀ e, e ∈ l → e.sys ∈ insts r
+  | .nil, l, r', h, e, he => by
+    obtain ⟨hl, _⟩ := steps_of_done (r := (.nil : PR ι)) (by simp [status]) h; subst hl; cases he
+  | .fin, l, r', h, e, he => by obtain ⟨hl, _⟩ := steps_fin h; subst hl; cases he
+  | .dead, l, r', h, e, he => by obtain ⟨hl, _⟩ := steps_dead h; subst hl; cases he
+  | .leaf s, l, r', h, e, he => by
+    rcases steps_leaf h with ⟨hl, _⟩ | ⟨hl, _⟩ | ⟨hl, _⟩ | ⟨hl, _⟩ <;> subst hl <;>
+      simp at he <;> (try rcases he with rfl | rfl) <;> (try subst he) <;> simp [PEv.sys, insts]
+  | .closing s, l, r', h, e, he => by
+    rcases steps_closing h with ⟨hl, _⟩ | ⟨hl, _⟩ | ⟨hl, _⟩ <;> subst hl <;>
+      simp at he <;> (try subst he) <;> simp [PEv.sys, insts]
+  | .seq a b, l, r', h, e, he => by
+    obtain ⟨la, lb, a', b', hl, ha, hb, _, _⟩ := steps_seq h
+    subst hl
+    simp only [insts, List.mem_append] at *
+    rcases he with he | he
+    · exact Or.inl (steps_ev_sys a ha e he)
+    · exact Or.inr (steps_ev_sys b hb e he)
+  | .par a b, l, r', h, e, he => by
+    obtain ⟨la, lb, a', b', hsh, ha, hb, _⟩ := steps_par h
+    simp only [insts, List.mem_append]
+    rcases (shuffle_mem hsh e).mp he with he | he
+    · exact Or.inl (steps_ev_sys a ha e he)
+    · exact Or.inr (steps_ev_sys b hb e he)
+  | .scopeOpen s body, l, r', h, e, he => by
+    obtain ⟨lb, b', hb, hc⟩ := steps_scopeOpen h
+    simp only [insts, List.mem_cons]
+    rcases hc with ⟨hl, _⟩ | ⟨hl, _, _⟩ | ⟨hl, _, _⟩ <;> subst hl
+    · exact Or.inr (steps_ev_sys body hb e he)
+    · rcases List.mem_append.mp he with he | he
+      · exact Or.inr (steps_ev_sys body hb e he)
+      · simp at he; subst he; exact Or.inl rfl
+    · rcases List.mem_append.mp he with he | he
+      · exact Or.inr (steps_ev_sys body hb e he)
+      · simp at he; subst he; exact Or.inl rfl
+  | .scope s body, l, r', h, e, he => by
+    rcases steps_scope h with ⟨hl, _⟩ | ⟨l', hl, h'⟩
+    · subst hl; cases he
+    · subst hl
+      simp only [insts, List.mem_cons]
+      rcases List.mem_cons.mp he with rfl | he
+      · exact Or.inl rfl
+      · obtain ⟨lb, b', hb, hc⟩ := steps_scopeOpen h'
+        rcases hc with ⟨hl, _⟩ | ⟨hl, _, _⟩ | ⟨hl, _, _⟩ <;> subst hl
+        · exact Or.inr (steps_ev_sys body hb e he)
+        · rcases List.mem_append.mp he with he | he
+          · exact Or.inr (steps_ev_sys body hb e he)
+          · simp at he; subst he; exact Or.inl rfl
+        · rcases List.mem_append.mp he with he | he
+          · exact Or.inr (steps_ev_sys body hb e he)
+          · simp at he; subst he; exact Or.inl rfl
+
+/-! ### C14: a panic is reported iff some system was unwound -/
+
+theorem hasPanic_deriv : ∀ (r : PR ι) (e : PEv ι) (r' : PR ι), deriv r e = some r' →
+    (hasPanic r' = true ↔ hasPanic r = true ∨ ∃ s, e = .P s)
+  | .nil, _, _, h => by simp [deriv] at h
+  | .fin, _, _, h => by simp [deriv] at h
+  | .dead, _, _, h => by simp [deriv] at h
+  | .leaf s, e, r', h => by
+    simp only [deriv] at h
+    by_cases h1 : e = .F s
+    · subst h1; simp at h; subst h; simp [hasPanic]
+    · simp [h1] at h
+  | .closing s, e, r', h => by
+    simp only [deriv] at h
+    by_cases h1 : e = .D s
+    · subst h1; simp at h; subst h; simp [hasPanic]
+    · by_cases h2 : e = .P s
+      · subst h2; simp at h; subst h; simp [hasPanic]
+      · simp [h1, h2] at h
+  | .seq a b, e, r', h => by
+    simp only [deriv] at h
+    cases hs : status a with
+    | panicked => simp [hs] at h
+    | ok =>
+      simp only [hs] at h
+      cases hb : deriv b e with
+      | none => simp [hb] at h
+      | some b1 =>
+        simp only [hb, Option.map_some, Option.some.injEq] at h; subst h
+        have := hasPanic_deriv b e b1 hb
+        simp only [hasPanic, Bool.or_eq_true, this]
+        constructor
+        · rintro (h | h | h)
+          · exact Or.inl (Or.inl h)
+          · exact Or.inl (Or.inr h)
+          · exact Or.inr h
+        · rintro ((h | h) | h)
+          · exact Or.inl h
+          · exact Or.inr (Or.inl h)
+          · exact Or.inr (Or.inr h)
+    | running =>
+      simp only [hs] at h
+      cases ha : deriv a e with
+      | none => simp [ha] at h
+      | some a1 =>
+        simp only [ha, Option.map_some, Option.some.injEq] at h; subst h
+        have := hasPanic_deriv a e a1 ha
+        simp only [hasPanic, Bool.or_eq_true, this]
+        constructor
+        · rintro ((h | h) | h)
+          · exact Or.inl (Or.inl h)
+          · exact Or.inr h
+          · exact Or.inl (Or.inr h)
+        · rintro ((h | h) | h)
+          · exact Or.inl (Or.inl h)
+          · exact Or.inr h
+          · exact Or.inl (Or.inr h)
+  | .par a b, e, r', h => by
+    simp only [deriv] at h
+    cases ha : deriv a e with
+    | some a1 =>
+      simp only [ha, Option.some.injEq] at h; subst h
+      have := hasPanic_deriv a e a1 ha
+      simp only [hasPanic, Bool.or_eq_true, this]
+      constructor
+      · rintro ((h | h) | h)
+        · exact Or.inl (Or.inl h)
+        · exact Or.inr h
+        · exact Or.inl (Or.inr h)
+      · rintro ((h | h) | h)
+        · exact Or.inl (Or.inl h)
+        · exact Or.inr h
+        · exact Or.inl (Or.inr h)
+    | none =>
+      simp only [ha] at h
+      cases hb : deriv b e with
+      | none => simp [hb] at h
+      | some b1 =>
+        simp only [hb, Option.map_some, Option.some.injEq] at h; subst h
+        have := hasPanic_deriv b e b1 hb
+        simp only [hasPanic, Bool.or_eq_true, this]
+        constructor
+        · rintro (h | h | h)
+          · exact Or.inl (Or.inl h)
+          · exact Or.inl (Or.inr h)
+          · exact Or.inr h
+        · rintro ((h | h) | h)
+          · exact Or.inl h
+          · exact Or.inr (Or.inl h)
+          · exact Or.inr (Or.inr h)
+  | .scope s body, e, r', h => by
+    simp only [deriv] at h
+    by_cases h1 : e = .F s
+    · subst h1; simp at h; subst h; simp [hasPanic]
+    · simp [h1] at h
+  | .scopeOpen s body, e, r', h => by
+    simp only [deriv] at h
+    cases hb : deriv body e with
+    | some b1 =>
+      simp only [hb, Option.some.injEq] at h; subst h
+      simpa [hasPanic] using hasPanic_deriv body e b1 hb
+    | none =>
+      simp only [hb] at h
+      by_cases hD : e = .D s
+      · subst hD
+        cases hst : status body with
+        | ok =>
+          simp only [hst, ↓reduceIte, Option.some.injEq] at h; subst h
+          simp [hasPanic, not_hasPanic_of_ok body hst]
+        | panicked => simp [hst] at h
+        | running => simp [hst] at h
+      · by_cases hP : e = .P s
+        · subst hP
+          have hr : r' = .dead := by
+            cases hst : status body with
+            | ok => simp [hst] at h; exact h.symm
+            | panicked => simp [hst] at h; exact h.symm
+            | running =>
+              simp only [hst, decide_true, Bool.true_and] at h
+              by_cases hq : quiescent body = true
+              · simp [hq] at h; exact h.symm
+              · simp [hq] at h
+          subst hr
+          simp [hasPanic]
+        · cases hst : status body <;> simp [hst, hD, hP] at h
+
+theorem hasPanic_steps (r : PR ι) (l : List (PEv ι)) (r' : PR ι) (h : steps r l = some r') :
+    hasPanic r' = true ↔ hasPanic r = true ∨ ∃ s, PEv.P s ∈ l := by
+  induction l generalizing r with
+  | nil => simp [steps] at h; subst h; simp
+  | cons e l ih =>
+    simp only [steps] at h
+    cases hd : deriv r e with
+    | none => simp [hd] at h
+    | some r1 =>
+      simp only [hd] at h
+      rw [ih r1 h, hasPanic_deriv r e r1 hd]
+      constructor
+      · rintro ((h | ⟨s, rfl⟩) | ⟨s, hs⟩)
+        · exact Or.inl h
+        · exact Or.inr ⟨s, by simp⟩
+        · exact Or.inr ⟨s, by simp [hs]⟩
+      · rintro (h | ⟨s, hs⟩)
+        · exact Or.inl (Or.inl h)
+        · rcases List.mem_cons.mp hs with rfl | hs
+          · exact Or.inl (Or.inr ⟨s, rfl⟩)
+          · exact Or.inr ⟨s, hs⟩
+
+/-! ### C14: every window that was opened is closed when the execution stops -/
+
+theorem closed_of_final : ∀ (r : PR ι) {l : List (PEv ι)} {r' : PR ι} (ab : Bool), steps r l = some r' →
+    finalOk r' ab = true → ∀ x, PEv.F x ∈ l → PEv.D x ∈ l ∨ PEv.P x ∈ l
+  | .nil, l, r', _, h, _, x, hx => by
+    obtain ⟨hl, _⟩ := steps_of_done (r := (.nil : PR ι)) (by simp [status]) h; subst hl; cases hx
+  | .fin, l, r', _, h, _, x, hx => by obtain ⟨hl, _⟩ := steps_fin h; subst hl; cases hx
+  | .dead, l, r', _, h, _, x, hx => by obtain ⟨hl, _⟩ := steps_dead h; subst hl; cases hx
+  | .leaf s, l, r', ab, h, hf, x, hx => by
+    rcases steps_leaf h with ⟨hl, _⟩ | ⟨hl, hr⟩ | ⟨hl, _⟩ | ⟨hl, _⟩ <;> subst hl
+    · cases hx
+    · subst hr; simp [finalOk] at hf
+    · simp at hx; subst hx; simp
+    · simp at hx; subst hx; simp
+  | .closing s, l, r', ab, h, hf, x, hx => by
+    rcases steps_closing h with ⟨hl, _⟩ | ⟨hl, _⟩ | ⟨hl, _⟩ <;> subst hl <;> simp at hx
+  | .seq a b, l, r', ab, h, hf, x, hx => by
+    obtain ⟨la, lb, a', b', hl, ha, hb, hr, hc⟩ := steps_seq h
+    subst hl hr
+    simp only [finalOk] at hf
+    have hfa : finalOk a' ab = true ∧ (lb = [] ∨ finalOk b' ab = true) := by
+      cases hs : status a' with
+      | panicked =>
+        refine ⟨finalOk_of_done a' ab (by simp [hs]), ?_⟩
+        rcases hc with hc | hc
+        · exact Or.inl hc
+        · rw [hs] at hc; cases hc
+      | ok => simp only [hs] at hf; exact ⟨finalOk_of_done a' ab (by simp [hs]), Or.inr hf⟩
+      | running =>
+        simp only [hs] at hf
+        refine ⟨hf, ?_⟩
+        rcases hc with hc | hc
+        · exact Or.inl hc
+        · rw [hs] at hc; cases hc
+    rcases List.mem_append.mp hx with hx | hx
+    · rcases closed_of_final a ab ha hfa.1 x hx with h' | h'
+      · exact Or.inl (List.mem_append_left _ h')
+      · exact Or.inr (List.mem_append_left _ h')
+    · rcases hfa.2 with hlb | hfb
+      · subst hlb; cases hx
+      · rcases closed_of_final b ab hb hfb x hx with h' | h'
+        · exact Or.inl (List.mem_append_right _ h')
+        · exact Or.inr (List.mem_append_right _ h')
+  | .par a b, l, r', ab, h, hf, x, hx => by
+    obtain ⟨la, lb, a', b', hsh, ha, hb, hr⟩ := steps_par h
+    subst hr
+    simp only [finalOk, Bool.and_eq_true] at hf
+    rcases (shuffle_mem hsh _).mp hx with hx | hx
+    · rcases closed_of_final a _ ha hf.1 x hx with h' | h'
+      · exact Or.inl ((shuffle_mem hsh _).mpr (Or.inl h'))
+      · exact Or.inr ((shuffle_mem hsh _).mpr (Or.inl h'))
+    · rcases closed_of_final b _ hb hf.2 x hx with h' | h'
+      · exact Or.inl ((shuffle_mem hsh _).mpr (Or.inr h'))
+      · exact Or.inr ((shuffle_mem hsh _).mpr (Or.inr h'))
+  | .scopeOpen s body, l, r', ab, h, hf, x, hx => by
+    obtain ⟨lb, b', hb, hc⟩ := steps_scopeOpen h
+    rcases hc with ⟨hl, hr⟩ | ⟨hl, hst, hr⟩ | ⟨hl, hst, hr⟩
+    · subst hr; simp [finalOk] at hf
+    · subst hl
+      rcases List.mem_append.mp hx with hx | hx
+      · rcases closed_of_final body ab hb (finalOk_of_done b' ab (by simp [hst])) x hx with h' | h'
+        · exact Or.inl (List.mem_append_left _ h')
+        · exact Or.inr (List.mem_append_left _ h')
+      · simp at hx
+    · subst hl
+      rcases List.mem_append.mp hx with hx | hx
+      · have hfb : finalOk b' true = true := by
+          rcases hst with hst | hst
+          · exact finalOk_of_done b' true (by simp [hst])
+          · exact finalOk_of_quiescent b' hst
+        rcases closed_of_final body true hb hfb x hx with h' | h'
+        · exact Or.inl (List.mem_append_left _ h')
+        · exact Or.inr (List.mem_append_left _ h')
+      · simp at hx
+  | .scope s body, l, r', ab, h, hf, x, hx => by
+    rcases steps_scope h with ⟨hl, _⟩ | ⟨l', hl, h'⟩
+    · subst hl; cases hx
+    · subst hl
+      obtain ⟨lb, b', hb, hc⟩ := steps_scopeOpen h'
+      rcases hc with ⟨hl, hr⟩ | ⟨hl, hst, hr⟩ | ⟨hl, hst, hr⟩
+      · subst hr; simp [finalOk] at hf
+      · subst hl
+        rcases List.mem_cons.mp hx with hx | hx
+        · cases hx; exact Or.inl (by simp)
+        · rcases List.mem_append.mp hx with hx | hx
+          · rcases closed_of_final body ab hb (finalOk_of_done b' ab (by simp [hst])) x hx with h' | h'
+            · exact Or.inl (by simp [h'])
+            · exact Or.inr (by simp [h'])
+          · simp at hx
+      · subst hl
+        rcases List.mem_cons.mp hx with hx | hx
+        · cases hx; exact Or.inr (by simp)
+        · rcases List.mem_append.mp hx with hx | hx
+          · have hfb : finalOk b' true = true := by
+              rcases hst with hst | hst
+              · exact finalOk_of_done b' true (by simp [hst])
+              · exact finalOk_of_quiescent b' hst
+            rcases closed_of_final body true hb hfb x hx with h' | h'
+            · exact Or.inl (by simp [h'])
+            · exact Or.inr (by simp [h'])
+          · simp at hx
 
 end PR
 end Shred
